@@ -703,8 +703,15 @@ def eval_sets(ctx, outs):
         if prob is None:
             for j, (m, n, s) in enumerate(zip(mc, new["cov"], case["prog_src"]["cov"])):
                 sg = abs(float(s[0])) if s[0] else 0.0
-                for a, b, v in zip(m["progs"] + m["inter"], list(n[1]) + list(n[2]), list(s[1]) + list(s[2])):
-                    ok = (float(b) == float(v)) if sg == 0.0 else core.close(a, b, scale=max(abs(v), sg * case["zmax"]), rtol=TOL)
+                base_ = abs(float(s[3])) if len(s) > 3 and s[3] is not None else 0.0
+                n_prog = len(m["progs"])
+                for idx_, (a, b, v) in enumerate(zip(m["progs"] + m["inter"], list(n[1]) + list(n[2]), list(s[1]) + list(s[2]))):
+                    if idx_ < n_prog:
+                        ok = (float(b) == float(v)) if sg == 0.0 else core.close(a, b, scale=max(abs(v), sg * case["zmax"]), rtol=TOL)
+                    else:
+                        # explicit interaction outcomes are stored relative to the baseline and re-derived from the written outcome (delta + baseline) - baseline:
+                        # two further roundings, relative to max(|delta|, |baseline|)
+                        ok = core.close(a if sg else Fraction(*float(v).as_integer_ratio()), b, scale=max(abs(v), sg * case["zmax"], base_), rtol=3 * TOL)
                     if not ok:
                         prob = f"covout {j}: outcome {b!r} vs model {float(a)!r} (source {v!r}, sigma {s[0]!r})"
                         break
